@@ -197,3 +197,23 @@ def _write_fmt(m, args, raw):
 def _status_success(m, args, raw):
     v = deref(args[0])
     return v.fields[0] == 0 if isinstance(v.fields[0], int) else v.fields[0] == 0
+
+
+@model("OnceCell::get_or_init", "OnceLock::get_or_init")
+def _once_get_or_init(m, args, raw):
+    """std's contract: the initialiser runs at the first call only; later calls return the stored value"""
+    cell = deref(args[0])
+    if cell.fields[0].variant == "None":
+        mc = re.search(r"\{closure@[^}]*\}", raw)
+        if mc:
+            fn = m.index.get(mc.group(0))
+            if fn is None:
+                raise Unsupported("closure of get_or_init")
+            v = m.run(fn, [args[1]])
+        else:
+            mf = re.search(r"\{([^{}]+)\}>$", raw)
+            if not mf:
+                raise Unsupported("initialiser of get_or_init: " + raw)
+            v = m.call(mf.group(1), [])
+        cell.fields[0] = Some(v)
+    return Ptr(cell.fields[0].fields, 0)
